@@ -662,8 +662,8 @@ func ladderC08(c *Ctx, f *ssa.Function, parse map[string]int64) {
 			key := "FormatDuration: final rung"
 			if ok && suffix == "ns" && div == 1 {
 				c.OK("C08.ladder", key, last.Pos(), "unconditional nanoseconds")
-			} else if !ok || rungs == 0 {
-				c.Unk("C08.ladder", key, last.Pos(), "the formatter is not an if-ladder of divisibility tests; its rungs are not extracted")
+			} else if !ok || rungs == 0 || strings.Contains(suffix, "%") {
+				c.Unk("C08.ladder", key, last.Pos(), "the formatter is not an if-ladder of divisibility tests that each return their own text (the unit may be chosen into locals and formatted once); its rungs are not extracted")
 			} else {
 				c.Bad("C08.ladder", key, last.Pos(), fmt.Sprintf("the ladder ends with suffix %q divisor %d; it must end with plain nanoseconds", suffix, div))
 			}
